@@ -377,3 +377,39 @@ Section Envelope.
           end) (fun patches =>
     if fixmode then bind (fix_string tf patches) (fun s => Val (Some s)) else Val None))))).
 End Envelope.
+
+(** * 5. A rule crawl and a fix batch, assembled from the kernels above
+    [Rule::crawl] (base.rs 175-218): [eval] is inside [catch_unwind] (total: a panic becomes the
+    "Unexpected exception" result with no fixes); [process_lint_result] runs
+    [has_template_conflicts] on every fix of every result outside it. The loop then feeds the
+    collected fixes to [compute_anchor_edit_info] and [apply_fixes]. *)
+Section Assembly.
+  Variable Fix Tree : Type.
+  Variable shape_of : Fix -> lintfix.       (* what fix_slices reads *)
+  Variable batch_of : Fix -> bfix.          (* what AnchorEditInfo::add reads *)
+  Variable legacy wrapping : bool.
+  Variable tsts : tsts_t.
+  Variable raw : list raw_slice.
+  (** the lint results of one crawl: one fix list per result ([eval] made total by catch_unwind) *)
+  Variable eval_results : phase -> N -> rule -> Tree -> list (list Fix).
+  Variable apply_fixes : Tree -> list Fix -> outcome Tree.
+
+  (** results whose fixes have no template conflict are kept *)
+  Fixpoint keep_results (rs : list (list Fix)) : outcome (list (list Fix)) :=
+    match rs with
+    | [] => Val []
+    | r :: rs' =>
+        bind (any_conflict legacy wrapping tsts raw (map shape_of r)) (fun c =>
+        bind (keep_results rs') (fun k => Val (if c then k else r :: k)))
+    end.
+
+  Definition crawl_fixes (ph : phase) (pass : N) (r : rule) (t : Tree) : outcome (list Fix) :=
+    bind (keep_results (eval_results ph pass r t)) (fun k => Val (concat k)).
+
+  Definition crawl_c (ph : phase) (pass : N) (r : rule) (t : Tree) : outcome bool :=
+    bind (crawl_fixes ph pass r t) (fun fs => Val (negb (is_empty fs))).
+
+  Definition apply_c (ph : phase) (pass : N) (r : rule) (t : Tree) : outcome Tree :=
+    bind (crawl_fixes ph pass r t) (fun fs =>
+    bind (compute_aei [] (map batch_of fs)) (fun _ => apply_fixes t fs)).
+End Assembly.
